@@ -20,6 +20,13 @@ NA = {
 }
 
 CHECKS = {
+ "C19": dict(
+   level="exploration",
+   text="Seeded multi-file/multi-document runs of the real binary in twelve variants: read EIO at a byte of an input, write ENOSPC/EIO with partial write at a byte of stdout and the real /dev/full, unopenable input at an argument position (missing, directory, errno), decode/evaluation failure generated at document (i,j), completeness of exit-0 runs against per-document references, -e, -n, format auto-detection; fault positions are drawn inside the ranges observed in a fault-free traced pre-run. The encoder-domain and -0 clauses run as the fault-free configuration and are not claimed to be decided by simulation. Sampling: evidence, not proof.",
+   ref="DESIGN.md §5.5",
+   note="Trusted: the reader/writer wrappers sit directly below yq's bufio layers; the prefix rule (bytes already written are a prefix of the fault-free output); -e judged on the -o=json -I0 rendering parsed by the driver.",
+   technique="deterministic process-level fault simulation of the command layer: seeded read/write/open faults by position in a multi-file run, generated decode/eval failures, exit-status/stderr/stdout-prefix oracles against fault-free reference processes",
+   engine="procsim"),
  "C10": dict(
    level="exploration",
    text="Seeded histories of 1-4 files x 0-3 documents (all YAML layout classes, JSON streams, one-document formats in multi-file sequences, stdin) are processed by one real yq process under a seeded short-read schedule and compared with the join of fresh single-document reference processes (O10.1/O10.2), with id conservation/order (O10.3), ground-truth provenance (O10.4), schedule transparency (O10.5), eval-all vs eval (O10.6) and identity document count by an independent splitter (O10.7). Sampling of histories and schedules: evidence, not proof.",
